@@ -600,6 +600,8 @@ def run(ck: Checker) -> None:
     )
     ck.rule_text = "one obligation per primitive / decided function"
     ck.assumptions += ["weak registry semantics", "no node object is placed at two positions (premise of the property)"]
+    from . import state_rules as SPOS
+    ck.guard("R-LEG-LINK", lambda: SPOS.r_position_presence(ck, "R-LEG-LINK", "pyoak.legacy.node", "the restored / rewritten position of the first element of a sequence is 0"))
     ck.guard("R-LEG-IDENT", lambda: r_leg_ident(ck))
     ck.guard("R-LEG-PROPAGATE", lambda: r_leg_propagate(ck))
     ck.guard("R-LEG-LINK", lambda: r_leg_link(ck))
